@@ -22,19 +22,71 @@ RULE = ("subgroup trees built from generated source text (`simple_parsing.subgro
         "(leaf or subgroup option of an unselected alternative; when it happens to be a proper prefix of a registered spelling the "
         "specification is silent: argparse's prefix matching is set aside) x unknown keys x missing required keys x repeated options (last wins) "
         "x non-int values x `--o v` / `--o=v`; a stream of sibling subgroup fields resolved in one round (frozen instance first, then "
-        "types / partials sharing leaf names with it or having a leaf it lacks, every key combination); a stream of abbreviated spellings; and Union[A, B] sub-command fields (options before / "
+        "types / partials sharing leaf names with it or having a leaf it lacks, every key combination); a stream of falsy partial keywords / frozen-instance attributes (0, False, '', 0.0, []) on int / bool / str / float / list "
+        "fields, as chosen key and as declared default key, at depth 1-3 (falsy values also appear at random in every other tree); a stream of abbreviated spellings; and Union[A, B] sub-command fields (options before / "
         "after the sub-command token, of the chosen / another member, default_factory or required). A fresh ArgumentParser per case. "
         "Non-trivial = at least one option written and the tree has a subgroup or sub-command field; distinct by full case.")
 TRUSTED = ["the registered option spellings (FieldWrapper.option_strings per destination) are read from the implementation and given to "
            "the model as its option table; the model decides which destinations are registered, not how they are spelled",
            "argparse: `--o v` and `--o=v` are the same occurrence; unknown options and their values are skipped by parse_known_args; "
            "sub-command token hands the rest of the command line to the member's parser (segmentation not modelled)"]
-ASSUMPTIONS = ["leaf fields are `int` with a default; values written are decimal digit strings or lower-case words (no sign, no blanks)",
+ASSUMPTIONS = ["leaf fields have defaults; fields named flag / name / ratio / tags are bool / str / float / List[int], their values are "
+               "compared through a fixed code book (index of the value, 0 = the falsy one) and their options are never written; all other "
+               "leaf fields are `int`; values written are decimal digit strings or lower-case words (no sign, no blanks)",
                "no token written as a value starts with '-'", "only long (`--`) spellings are written on the command line"]
 EXHAUSTIVE = {"quick": False, "thorough": False}
 
 ROOT = "c"
-LEAFN = ["lr", "x", "mom", "wd"]
+LEAFN = ["lr", "x", "mom", "wd", "flag", "name", "ratio", "tags"]
+# Leaf fields of other types than int.  The type goes with the field NAME; the model (int leaves) sees the index of the value in
+# the type's code book (0 = the falsy value of the type), the generated source text and the observation use the value itself.
+# Options of these fields are never written on the command line (their token grammar belongs to C02 / C04 / C12).
+LEAF_TYPES = {"flag": "bool", "name": "str", "ratio": "float", "tags": "list"}
+CODEBOOK = {"bool": [False, True], "str": ["", "bob", "al", "zed"], "float": [0.0, 2.5, 1.5, 3.5], "list": [[], [1, 2], [3], [4, 5, 6]]}
+ANNOT = {"int": "int", "bool": "bool", "str": "str", "float": "float", "list": "List[int]"}
+
+
+def ltype(name):
+    return LEAF_TYPES.get(name, "int")
+
+
+def is_int_leaf(dest):
+    return ltype(dest.rsplit(".", 1)[-1]) == "int"
+
+
+def lit(name, code):
+    t = ltype(name)
+    return repr(code) if t == "int" else repr(CODEBOOK[t][code])
+
+
+def leaf_decl(name, code):
+    t = ltype(name)
+    if t == "list":
+        return f"    {name}: List[int] = field(default_factory=lambda: {lit(name, code)})"
+    return f"    {name}: {ANNOT[t]} = {lit(name, code)}"
+
+
+def decode(name, v):
+    """observed value -> the model's int; '?..' when it is not a value of the field's type / code book"""
+    t = ltype(name)
+    if t == "int":
+        return v if isinstance(v, int) and not isinstance(v, bool) else "?" + type(v).__name__
+    want = {"bool": bool, "str": str, "float": float, "list": list}[t]
+    if type(v) is not want or v not in CODEBOOK[t]:
+        return "?" + repr(v)[:30]
+    return CODEBOOK[t].index(v)
+
+
+def _dflt(rng, name, base):
+    """class default: truthy, so that a lost falsy override shows"""
+    return base if ltype(name) == "int" else rng.randrange(1, len(CODEBOOK[ltype(name)]))
+
+
+def _over(rng, name, base, p_falsy=0.4):
+    """value of a partial keyword / frozen instance attribute: falsy (0, False, '', 0.0, []) with probability p_falsy"""
+    if rng.random() < p_falsy:
+        return 0
+    return base if ltype(name) == "int" else rng.randrange(0, len(CODEBOOK[ltype(name)]))
 SGN = ["model", "opt", "sub", "x"]
 KEYS = ["ka", "kb", "kc"]
 
@@ -48,7 +100,7 @@ def _mk_leafclass(rng, counter, names):
     counter[0] += 1
     k = rng.choice([1, 2, 2, 3])
     ns = rng.sample(names, min(k, len(names)))
-    return {"name": f"K{counter[0]}", "leaves": [[n, counter[0] * 10 + i] for i, n in enumerate(ns)], "subs": []}
+    return {"name": f"K{counter[0]}", "leaves": [[n, _dflt(rng, n, counter[0] * 10 + i)] for i, n in enumerate(ns)], "subs": []}
 
 
 def _mk_alt(rng, dc):
@@ -57,9 +109,9 @@ def _mk_alt(rng, dc):
         kind = rng.choice(["type", "partial"])      # frozen instances of classes that have subgroup fields themselves: rarer
     ov = []
     if kind == "partial":
-        ov = [[n, 500 + d] for n, d in dc["leaves"] if rng.random() < 0.6]
+        ov = [[n, _over(rng, n, 500 + d)] for n, d in dc["leaves"] if rng.random() < 0.6]
     elif kind == "inst":
-        ov = [[n, 700 + d] for n, d in dc["leaves"]]
+        ov = [[n, _over(rng, n, 700 + d, 0.25)] for n, d in dc["leaves"]]
     return {"kind": kind, "dc": dc, "ov": ov}
 
 
@@ -84,7 +136,7 @@ def gen_class(rng, depth, counter, pool, nfields=None):
     me = counter[0]
     nl = rng.choice([0, 1, 1, 2])
     lnames = rng.sample(LEAFN, nl)
-    leaves = [[n, me * 10 + i] for i, n in enumerate(lnames)]
+    leaves = [[n, _dflt(rng, n, me * 10 + i)] for i, n in enumerate(lnames)]
     nf = nfields or rng.choice([1, 1, 2])
     fnames = rng.sample([n for n in SGN if n not in lnames], nf)
     subs = []
@@ -194,6 +246,7 @@ def cases_for_tree(tree, rng, per_tree, stats=None):
         leaves, sgs, ok = selected(tree, chosen)
         base = [_tok("choose", dest=d, key=k) for d, k in conf if k is not None]
         variants = []
+        leaves = [d for d in leaves if is_int_leaf(d)]     # options of bool / str / float / list leaves are never written
         if not ok:
             variants.append(base)  # a required subgroup is left without a key
         else:
@@ -205,10 +258,11 @@ def cases_for_tree(tree, rng, per_tree, stats=None):
             elif leaves:
                 subsets.append(rng.sample(leaves, rng.randint(1, len(leaves) - 1)))
             for sub in subsets:
-                toks = base + [_tok("set", dest=d, v=str(300 + rng.randint(0, 99))) for d in sub]
+                toks = base + [_tok("set", dest=d, v=("0" if rng.random() < 0.1 else str(300 + rng.randint(0, 99)))) for d in sub]
                 variants.append(toks)
             # one foreign option: a leaf or a subgroup option that exists only in an unselected alternative
-            foreign = [x for x in dests if x[0] not in leaves and x[0] not in sgs]
+            foreign = [x for x in dests if x[0] not in leaves and x[0] not in sgs and (x[1] == "sg" or is_int_leaf(x[0]))
+                       and x[0] not in selected(tree, chosen)[0]]
             if foreign:
                 fd = rng.choice(foreign)
                 v = str(400 + rng.randint(0, 99)) if fd[1] == "leaf" else rng.choice(fd[3])
@@ -327,6 +381,56 @@ def sibling_cases(rng, tier):
     return out
 
 
+def falsy_cases(rng, tier):
+    """functools.partial alternatives whose keywords are FALSY values (0, False, '', 0.0, []) of int / bool / str / float / list
+    fields, next to truthy partials, a frozen instance of falsy values and the plain type: chosen by key, as the declared default
+    key, at nesting depth 1, 2 and 3; every key combination x nothing / every int leaf / one int leaf (also `0`) written"""
+    A = {"name": "Hyper", "leaves": [["x", 5], ["flag", 1], ["name", 1], ["ratio", 1], ["tags", 1], ["lr", 7]], "subs": []}
+
+    def alt(kind, dc, ov=()):
+        return {"kind": kind, "dc": dc, "ov": [list(x) for x in ov]}
+
+    def table():
+        return [["zero", alt("partial", A, [("x", 0), ("flag", 0), ("name", 0), ("ratio", 0), ("tags", 0)])],
+                ["mixed", alt("partial", A, [("x", 0), ("name", 2), ("tags", 0), ("lr", 9)])],
+                ["one", alt("partial", A, [("x", 8), ("flag", 1), ("name", 3), ("ratio", 2), ("tags", 3)])],
+                ["izero", alt("inst", A, [("x", 0), ("flag", 0), ("name", 0), ("ratio", 0), ("tags", 0), ("lr", 0)])],
+                ["plain", alt("type", A)]]
+
+    def holder(name, default, leaves, field="hp"):
+        return {"name": name, "leaves": [list(x) for x in leaves], "subs": [{"f": field, "default": default, "dkind": "key", "alts": table()}]}
+
+    trees = [holder(f"Top_{d}", d, [("seed", 3)]) for d in (None, "zero", "mixed", "izero", "plain")]
+    for d in ("zero", "mixed", None):
+        mid = holder(f"Mid_{d}", d, [("lr", 4), ("flag", 1)])
+        trees.append({"name": f"Deep2_{d}", "leaves": [], "subs": [
+            {"f": "model", "default": "mid", "dkind": "key",
+             "alts": [["mid", alt("type", mid)], ["pmid", alt("partial", mid, [("lr", 0), ("flag", 0)])], ["flat", alt("partial", A, [("x", 0)])]]}]})
+    mid = holder("Mid_z", "zero", [("lr", 4)])
+    mid2 = {"name": "Mid2", "leaves": [["name", 2]], "subs": [
+        {"f": "inner", "default": "pz", "dkind": "key", "alts": [["pz", alt("partial", mid, [("lr", 0)])], ["ty", alt("type", mid)]]}]}
+    trees.append({"name": "Deep3", "leaves": [["seed", 3]], "subs": [
+        {"f": "model", "default": None, "dkind": "key", "alts": [["m2", alt("type", mid2)], ["pm2", alt("partial", mid2, [("name", 0)])]]}]})
+    out = []
+    for tree in trees:
+        confs = configurations(tree, rng, 200)
+        if tier == "quick" and len(confs) > 12:
+            confs = rng.sample(confs, 12)
+        for conf in confs:
+            chosen = {d: k for d, k in conf if k is not None}
+            leaves, sgs, ok = selected(tree, chosen)
+            leaves = [d for d in leaves if is_int_leaf(d)]
+            base = [_tok("choose", dest=d, key=k) for d, k in conf if k is not None]
+            variants = [base]
+            if ok and leaves:
+                variants.append(base + [_tok("set", dest=rng.choice(leaves), v=rng.choice(["0", "444"]))])
+                if tier != "quick":
+                    variants.append(base + [_tok("set", dest=d, v=str(400 + i)) for i, d in enumerate(leaves)])
+            for toks in variants:
+                out.append({"kind": "sg", "tree": tree, "toks": [dict(t, eq=False) for t in toks]})
+    return out
+
+
 def cmd_cases(rng, n):
     out = []
     pool = [["Alpha", [["lr", 1], ["x", 2]]], ["Beta", [["lr", 10], ["mom", 20]]], ["Gamma", [["wd", 5]]]]
@@ -383,7 +487,8 @@ def gen(tier, seed):
     cases = corpus()
     cases += abbrev_cases(rng, 0)
     cases += sibling_cases(rng, tier)
-    ntrees, per_tree = (40, 14) if tier == "quick" else (200, 24)
+    cases += falsy_cases(rng, tier)
+    ntrees, per_tree = (34, 14) if tier == "quick" else (200, 24)
     maxdepth = 2 if tier == "quick" else 3
     for i in range(ntrees):
         counter, pool = [0], []
@@ -408,7 +513,7 @@ def _classes_postorder(dc, out, seen):
 
 
 def _inst_expr(dc, lv):
-    args = [f"{k}={lv.get(k, d)}" for k, d in dc["leaves"]]
+    args = [f"{k}={lit(k, lv.get(k, d))}" for k, d in dc["leaves"]]
     for sg in dc["subs"]:
         key = sg["default"] if sg["default"] is not None else sg["alts"][0][0]
         alt = sg_table(sg)[key]
@@ -421,7 +526,7 @@ def _alt_expr(alt):
     if alt["kind"] == "type":
         return n
     if alt["kind"] == "partial":
-        return f"functools.partial({n}, " + ", ".join(f"{k}={v}" for k, v in alt["ov"]) + ")"
+        return f"functools.partial({n}, " + ", ".join(f"{k}={lit(k, v)}" for k, v in alt["ov"]) + ")"
     return _inst_expr(alt["dc"], dict(alt["ov"]))
 
 
@@ -441,7 +546,7 @@ def _sg_lines(sg):
 def source(tree):
     out = []
     _classes_postorder(tree, out, set())
-    lines = ["import functools", "from dataclasses import dataclass, field", "from typing import Union",
+    lines = ["import functools", "from dataclasses import dataclass, field", "from typing import List, Union",
              "from simple_parsing import subgroups", ""]
     for dc in out:
         lines += ["@dataclass(frozen=True)", f"class {dc['name']}:"]
@@ -450,7 +555,7 @@ def source(tree):
             if sg["default"] is None:
                 body += _sg_lines(sg)
         for k, d in dc["leaves"]:
-            body.append(f"    {k}: int = {d}")
+            body.append(leaf_decl(k, d))
         for sg in dc["subs"]:
             if sg["default"] is not None:
                 body += _sg_lines(sg)
@@ -602,10 +707,8 @@ def _value_of(obj):
         v = getattr(obj, f.name)
         if dataclasses.is_dataclass(v) and not isinstance(v, type):
             subs.append([f.name, _value_of(v)])
-        elif isinstance(v, int) and not isinstance(v, bool):
-            leaves.append([f.name, v])
         else:
-            leaves.append([f.name, "?" + type(v).__name__])
+            leaves.append([f.name, decode(f.name, v)])
     return {"c": type(obj).__name__, "l": leaves, "s": subs}
 
 
@@ -655,6 +758,10 @@ def _run_sg_inner(case):
             continue
         if t["k"] == "abbr":
             o = o[: max(3, len(o) - t["cut"])]
+        if any(r != o and r.startswith(o) and not is_int_leaf(dd) and not _is_sg_dest(tree, dd)
+               for dd, rs in names.items() for r in rs) and o not in [r for rs in names.values() for r in rs]:
+            skipped += 1      # would be read as an abbreviation of a bool / str / float / list option: their token grammar is not C07's
+            continue
         toks.append(dict(o=o, v=v, dest=d, k=t["k"], eq=t["eq"]))
     argv = []
     for t in toks:
@@ -868,6 +975,14 @@ def _silent(case, obs):
     return False
 
 
+def _pretty(v):
+    """a value tree with the leaves as Python literals (code-book values decoded)"""
+    if not isinstance(v, dict):
+        return repr(v)
+    parts = [f"{n}={lit(n, x) if isinstance(x, int) else x}" for n, x in v["l"]] + [f"{f}={_pretty(x)}" for f, x in v["s"]]
+    return f"{v['c']}({', '.join(parts)})"
+
+
 def py_spec(case, obs):
     if obs.get("stage") == "declaration":
         return f"declaring the classes / setting up a parser for them ended with {obs['obs']} {obs['msg'][:120]}"
@@ -886,7 +1001,7 @@ def py_spec(case, obs):
         if o[0] != "ok":
             return f"{shown}: expected {e[1]} with subgroups {e[2]}, observed {o}"
         if o[1]["v"] != e[1]:
-            return f"{shown}: expected value {e[1]}, observed {o[1]['v']}"
+            return f"{shown}: expected value {_pretty(e[1])}, observed {_pretty(o[1]['v'])}"
         if case["kind"] == "sg" and o[1]["sub"] != e[2]:
             return f"{shown}: expected namespace.subgroups {e[2]}, observed {o[1]['sub']}"
         return None
@@ -1005,7 +1120,10 @@ def calts(alts):
 def cval(v):
     subs = "VNil"
     for f, x in reversed(v["s"]):
-        subs = f"(VCons {cstr(f)} {cval(x)} {subs})"
+        cx = cval(x)
+        if cx is None:
+            return None
+        subs = f"(VCons {cstr(f)} {cx} {subs})"
     leaves = [(n, x) for n, x in v["l"]]
     if any(not isinstance(x, int) or isinstance(x, bool) for _, x in leaves):
         return None
